@@ -6,18 +6,26 @@ use std::net::{IpAddr, Ipv4Addr, Ipv6Addr};
 use trippy_core::verif::Response;
 use trippy_core::Probe;
 
+fn carry_addr(v6: bool, rng: &mut Rng) -> IpAddr {
+    let total = *rng.pick(&crate::cksum::CARRY_SUMS);
+    addr_from(&crate::cksum::addr_with_word_sum(rng, if v6 { 8 } else { 2 }, total))
+}
+
 pub fn addr_pairs(v6: bool, rng: &mut Rng) -> Vec<(IpAddr, IpAddr)> {
     if v6 {
         vec![
             (IpAddr::V6(Ipv6Addr::new(0xfd00, 0, 0, 0, 0, 0, 0, 1)), IpAddr::V6(Ipv6Addr::new(0xfd00, 0, 0, 0, 0, 0, 0, 7))),
             (IpAddr::V6(Ipv6Addr::from([0xff; 16])), IpAddr::V6(Ipv6Addr::new(0xffff, 0xffff, 0xffff, 0xffff, 0xffff, 0xffff, 0xffff, 0xfffe))),
             (IpAddr::V6(Ipv6Addr::from(<[u8; 16]>::try_from(rng.bytes(16)).unwrap())), IpAddr::V6(Ipv6Addr::from(<[u8; 16]>::try_from(rng.bytes(16)).unwrap()))),
+            // word sums at which the pseudo-header accumulator changes its carry pattern
+            (carry_addr(true, rng), carry_addr(true, rng)),
         ]
     } else {
         vec![
             (IpAddr::V4(Ipv4Addr::new(10, 0, 0, 1)), IpAddr::V4(Ipv4Addr::new(10, 0, 0, 7))),
             (IpAddr::V4(Ipv4Addr::new(255, 255, 255, 254)), IpAddr::V4(Ipv4Addr::new(255, 255, 255, 255))),
             (IpAddr::V4(Ipv4Addr::from(rng.next() as u32)), IpAddr::V4(Ipv4Addr::from(rng.next() as u32))),
+            (carry_addr(false, rng), carry_addr(false, rng)),
         ]
     }
 }
